@@ -884,6 +884,20 @@ ldb_lock_file(const char *filename, ldb_filelock_t **lock) {
 
   ldb_mutex_lock(&file_mutex);
 
+  /* A POSIX record lock is released as soon as the process closes
+     any descriptor for the file, so a file this process already
+     holds locked must be refused without opening (and closing) it. */
+  if (stat(filename, &st) == 0) {
+    id.dev = st.st_dev;
+    id.ino = st.st_ino;
+
+    if (rb_set_has(&file_set, &id)) {
+      fd = -1;
+      errno = ENOLCK;
+      goto fail;
+    }
+  }
+
   fd = ldb_open(filename, O_RDWR | O_CREAT, 0644);
 
   if (fd < 0 || fstat(fd, &st) != 0)
